@@ -404,6 +404,25 @@ theorem C05W_nts_accepted_is_authenticated_scion (cfg : Cfg) (sc : ScionCtx) (pr
   obtain ⟨h1, h2, h3⟩ := hn hnts
   exact ⟨d, krx, hm, h1, h2, h3⟩
 
+/-- **A refusal without a retry left ends the exchange with that site's error** — every refusal
+    site, every position of the counter: when the body refuses the datagram (`.skip e`) and the retry
+    test is negative (counter at `maxNumRetries`, or no deadline, or the reading not before the
+    deadline), the loop returns `e`; nothing behind that datagram is looked at. -/
+theorem C05W_refusal_without_retry_is_error {D : Type} (classify : Int → D → Step) (deadline : Option Int)
+    (r n : Nat) (rd rd2 : List Int) (d : D) (cRx : Int) (e : ErrKind) (rest : List (XEvent D))
+    (hc : classify cRx d = .skip e) (hr : retryTest r deadline rd = some (false, rd2)) :
+    xLoop (fun _ => classify) deadline r n rd (.dgram d (some cRx) :: rest) = some (.error e (n + 1), rd2) := by
+  simp [xLoop, hc, hr]
+
+/-- the retry test is negative, without reading the clock, once the one retry is used up, and
+    whenever the context carries no deadline -/
+theorem C05W_no_retry_when_used_up_or_no_deadline (r : Nat) (deadline : Option Int) (rd : List Int)
+    (h : r = maxNumRetries ∨ deadline = none) : retryTest r deadline rd = some (false, rd) := by
+  unfold retryTest
+  rcases h with h | h
+  · simp [h]
+  · subst h; split <;> rfl
+
 /-! ### the variant: the `ProcessResponse` site falls through when no retry is left -/
 
 /-- loop body of the IP client in the variant -/
